@@ -55,7 +55,8 @@ def ctor_literals():
     for U in good:
         out.append(("wellformed", (U,)))
     base = [[Fr(-1), Fr(-1), Fr(0), Fr(2), Fr(2)], [Fr(-1)] * 3 + [Fr(1, 3)] * 2 + [Fr(2)] * 3, [0, 0, 1, 1],
-            [0, 0, 0, 1, 2, 2, 3, 3, 3], [0, 1], [0.0, 0.0, 0.5, 1.0, 1.0], [Fr(-1), Fr(0), Fr(1), Fr(2)]]
+            [0, 0, 0, 1, 2, 2, 3, 3, 3], [0, 1], [0.0, 0.0, 0.5, 1.0, 1.0], [Fr(-1), Fr(0), Fr(1), Fr(2)],
+            [Fr(-1), Fr(-1), Fr(0), Fr(0), Fr(2), Fr(2)], [0, 0, 0, 1, 1, 1, 2, 2, 2]]
     for U in base:
         p = rb.degree_of(U)
         out.append(("drop_first", (U[1:],)))
@@ -73,6 +74,15 @@ def ctor_literals():
             V[1], V[-2] = V[-2], V[1]
             if V != U:
                 out.append(("unsorted", (V,)))
+        # every transposition of two different values (descents in the head block, the interior and the tail block)
+        for i in range(len(U)):
+            for j in range(i + 1, len(U)):
+                if U[i] != U[j]:
+                    V = list(U)
+                    V[i], V[j] = V[j], V[i]
+                    out.append(("unsorted_swap", (V,)))
+                    if i == 0 or j == len(U) - 1:
+                        out.append(("unsorted_swap_explicit_degree", (V, p)))
         if len(set(U)) > 2:
             k = sorted(set(U))[1]
             V = sorted(U + [k] * (p + 2 - rb.mult(U, k)))
